@@ -1,9 +1,9 @@
 #!/bin/sh
 # Every seed of every round against the quick check of its property, on scratch worktrees (VERIF_REPO); /repo untouched.
 cd "$(dirname "$0")/.."
-OUT=seeded/RESULTS.txt
+OUT=${MATRIX_OUT:-seeded/RESULTS.txt}
 : > $OUT.new
-for dir in seeded seeded2 seeded3 seeded4; do
+for dir in ${SEED_DIRS:-seeded seeded2 seeded3 seeded4 seeded5 seeded6}; do
   for d in $dir/C*; do
     id=$(basename $d)
     [ -f $d/patch.diff ] || continue
